@@ -12,6 +12,14 @@ def Loc.handled : Loc → Bool
   | .pre | .tryLock | .locked | .rmFailed | .setStarted | .body _ | .bodyDone | .skipped => true
   | _ => false
 
+def Loc.hasReg : Loc → Bool
+  | .reg | .term | .pre | .tryLock | .locked | .rmFailed | .setStarted | .body _ | .bodyDone | .skipped => true
+  | _ => false
+
+def Loc.hasTerm : Loc → Bool
+  | .term | .pre | .tryLock | .locked | .rmFailed | .setStarted | .body _ | .bodyDone | .skipped => true
+  | _ => false
+
 /-- locations before the lock is taken -/
 def Loc.early : Loc → Bool
   | .init | .reg | .term | .pre | .tryLock => true
@@ -48,8 +56,8 @@ structure Inv (cfg : Cfg) (d0 : Bool) (s : St) : Prop where
     s.sh.lock = some (.run i)
   notDone : ∀ i, i < s.n → (s.procs i).dead = none → (s.procs i).hnd = none → (s.procs i).loc.critical = true →
     s.sh.done = false
-  handlers : ∀ i, i < s.n → (s.procs i).loc.handled = true →
-    (s.procs i).termH = true ∧ (s.procs i).intH = true ∧ (s.procs i).reg = true
+  handlers : ∀ i, i < s.n → ((s.procs i).loc.hasReg = true → (s.procs i).reg = true) ∧
+    ((s.procs i).loc.hasTerm = true → (s.procs i).termH = true) ∧ ((s.procs i).loc.handled = true → (s.procs i).intH = true)
   touchedDone : ∀ i, (s.procs i).touched = true → s.sh.done = true ∧ (s.procs i).completed = true ∧ d0 = false
   doneMono : d0 = true → s.sh.done = true
   uniqueTouch : ∀ i j, (s.procs i).touched = true → (s.procs j).touched = true → i = j
@@ -139,5 +147,14 @@ theorem act_notDone (cfg : Cfg) (d0 : Bool) (s : St) (a : Act) (h : Inv cfg d0 s
   have := Loc.holding_of_critical (s.procs i).loc
   cases a <;> simp only [Act.proc] at * <;> unfold_act <;> grind [Loc.holding, Loc.critical, Loc.inTry]
 
+
+
+theorem act_handlers (cfg : Cfg) (d0 : Bool) (s : St) (a : Act) (h : Inv cfg d0 s) :
+    ∀ i, i < (act cfg s a).n → (((act cfg s a).procs i).loc.hasReg = true → ((act cfg s a).procs i).reg = true) ∧
+      (((act cfg s a).procs i).loc.hasTerm = true → ((act cfg s a).procs i).termH = true) ∧
+      (((act cfg s a).procs i).loc.handled = true → ((act cfg s a).procs i).intH = true) := by
+  intro i
+  have := h.handlers i
+  cases a <;> unfold_act <;> grind [Loc.handled, Loc.inTry, Loc.hasReg, Loc.hasTerm]
 
 end XpmVerif.Runner
